@@ -1607,3 +1607,101 @@ func rulePassUnconditional(r *Run) {
 	}
 	r.Min("render_passes_in_renderTemplate", n, 4)
 }
+
+// ---------------------------------------------------------------------------
+// R-FENCE-VERBATIM (C20): between code fences every character is literal, so the text of a code
+// block must not pass a Markdown escaper.  A function that writes a ``` fence never reaches
+// (statically) a function that backslash-escapes text (strings.ReplaceAll / a strings.Replacer
+// with replacements beginning with a backslash): the backslashes would become part of the code,
+// and every export/import round would add more.
+// ---------------------------------------------------------------------------
+
+func ruleFenceVerbatim(r *Run) {
+	p := r.P
+	hasBackslashRepl := func(c *ssa.Call) bool {
+		for _, a := range c.Call.Args {
+			for _, e := range append(varargElems(a), a) {
+				if e == nil {
+					continue
+				}
+				if s, ok := constString(e); ok && len(s) >= 2 && s[0] == '\\' {
+					return true
+				}
+			}
+		}
+		return false
+	}
+	// does the package build a backslash-escaping Replacer anywhere (package initialiser included)?
+	replacerEscapes := false
+	if pkg := p.SSAPkg[pkgMd]; pkg != nil {
+		for _, m := range pkg.Members {
+			if f, ok := m.(*ssa.Function); ok {
+				for _, g := range withClosures(f) {
+					allInstrs(g, func(in ssa.Instruction) {
+						if c, ok := in.(*ssa.Call); ok && calleeName(c) == "strings.NewReplacer" && hasBackslashRepl(c) {
+							replacerEscapes = true
+						}
+					})
+				}
+			}
+		}
+	}
+	escapers := map[*ssa.Function]bool{}
+	for _, fn := range p.ModFuncs() {
+		if fn.Pkg == nil || fn.Pkg.Pkg.Path() != pkgMd {
+			continue
+		}
+		allInstrs(fn, func(in ssa.Instruction) {
+			c, ok := in.(*ssa.Call)
+			if !ok {
+				return
+			}
+			switch calleeName(c) {
+			case "strings.ReplaceAll", "strings.Replace":
+				if hasBackslashRepl(c) {
+					escapers[topLevel(fn)] = true
+				}
+			case "(*strings.Replacer).Replace", "(*strings.Replacer).WriteString":
+				if replacerEscapes {
+					escapers[topLevel(fn)] = true
+				}
+			}
+		})
+	}
+	n := 0
+	for _, fn := range p.ModFuncs() {
+		if fn.Pkg == nil || fn.Pkg.Pkg.Path() != pkgMd || fn.Parent() != nil {
+			continue
+		}
+		fence := false
+		allInstrs(fn, func(in ssa.Instruction) {
+			c, ok := in.(*ssa.Call)
+			if !ok {
+				return
+			}
+			for _, a := range c.Call.Args {
+				if s, ok := constString(a); ok && strings.Contains(s, "```") {
+					fence = true
+				}
+			}
+		})
+		if !fence {
+			continue
+		}
+		n++
+		bad := ""
+		if escapers[fn] {
+			bad = shortName(fn) + " itself"
+		}
+		for _, g := range sortedFuncs(p.staticReach(fn)) {
+			if g != fn && escapers[g] {
+				bad = shortName(g)
+			}
+		}
+		r.Check("fence-verbatim", shortName(fn), fn.Pos(), bad == "",
+			fmt.Sprintf("%s writes a fenced code block: %s", shortName(fn),
+				map[bool]string{true: "nothing it calls backslash-escapes text", false: "the text it writes can pass through " + bad + ", which backslash-escapes Markdown metacharacters — inside a fence the backslashes are literal, so the exported code differs from the run text and each round trip adds more"}[bad == ""]))
+	}
+	r.Min("fence_writing_functions", n, 1)
+	r.Count("markdown_escapers", len(escapers))
+}
